@@ -9,5 +9,6 @@ CONSTANTS
   Units = {2, 4, 8}
   EmitMod = 1
   EmitRem = 0
+  Fixed = {"AsyncColumn", "DedentCont", "LambdaInClass"}
 INVARIANT DesignMeetsReference
 CHECK_DEADLOCK FALSE
